@@ -150,10 +150,18 @@ class SerDomain(ExactCollections, Domain):
                 src = obj.a
                 ok = isinstance(src, Obj) and src.kind == "bytesio" and src.a == Sym("stored")
                 return [("ok", Dec("unpickle", obj.b) if ok else TOP, state)]
-            if obj == Sym("value") and attr == "encode":
-                return [("ok", Enc("encode", args[0].v if args and isinstance(args[0], Const) else "utf-8", Sym("value")), state)]
-            if obj == Sym("stored") and attr == "decode":
-                return [("ok", Dec("decode", args[0].v if args and isinstance(args[0], Const) else "utf-8"), state)]
+            if obj in (Sym("value"), Sym("stored")) and attr in ("encode", "decode"):
+                cod = args[0] if args else kwargs.get("encoding", Const("utf-8"))
+                err = args[1] if len(args) > 1 else kwargs.get("errors", Const("strict"))
+                if not (isinstance(cod, Const) and isinstance(err, Const)) or len(args) > 2 or set(kwargs) - {"encoding", "errors"}:
+                    return [("ok", TOP, state)]
+                # an error handler other than 'strict' makes the codec lossy: what cannot be en/decoded is replaced or
+                # dropped instead of rejected, so the pair is no longer an inverse pair on what it accepts
+                par = cod.v if err.v == "strict" else "%s, errors=%r" % (cod.v, err.v)
+                if obj == Sym("value") and attr == "encode":
+                    return [("ok", Enc("encode", par, Sym("value")), state)]
+                if obj == Sym("stored") and attr == "decode":
+                    return [("ok", Dec("decode", par), state)]
         if (name == "int" or fval == TypeTag("int")) and args and args[0] == Sym("stored"):
             return [("ok", Dec("int", None), state)]
         if (name == "str" or fval == TypeTag("str")) and args and args[0] == Sym("value"):
@@ -200,6 +208,14 @@ def _unpickle_opts(kwargs):
     return tuple(out) or None
 
 
+def has_top_(v):
+    if v is TOP:
+        return True
+    if isinstance(v, TupleV):
+        return any(has_top_(x) for x in v.items)
+    return False
+
+
 def codec(c):
     return str(c).lower().replace("-", "").replace("_", "")
 
@@ -231,8 +247,8 @@ def inverse_ok(tag, enc, dec):
     if enc.src != Sym("value"):
         return False, "the serialized form is not computed from the value itself"
     if enc.kind == "encode":
-        ok = isinstance(dec, Dec) and dec.kind == "decode" and codec(dec.param) == codec(enc.param)
-        return (ok and tag == "str"), ("encode(%s) must be undone by decode(%s) and used for exact str only (type %s, decoder %s)" % (enc.param, enc.param, tag, dec))
+        ok = isinstance(dec, Dec) and dec.kind == "decode" and codec(dec.param) == codec(enc.param) and "errors=" not in str(enc.param) + str(dec.param)
+        return (ok and tag == "str"), (("an error handler other than 'strict' replaces or drops what cannot be converted instead of rejecting it, so the value that comes back is not the one stored (encode(%s), decoder %s%s)" % (enc.param, dec, "" and tag)) if "errors=" in str(enc.param) + str(getattr(dec, "param", "")) else ("encode(%s) must be undone by decode(%s) and used for exact str only (type %s, decoder %s)" % (enc.param, enc.param, tag, dec)))
     if enc.kind == "fmt":
         ok = isinstance(dec, Dec) and dec.kind == "int" and (enc.param in (b"%d", "%d"))
         return (ok and tag == "int"), "decimal text must be undone by int() and used for exact int only (type %s: a bool or int subclass would come back as int; decoder %s)" % (tag, dec)
@@ -341,6 +357,65 @@ def run(chk):
             r7.ok("%s keeps no state between calls" % f.qualname, sample=False)
     r7.floor("functions of serde.py inspected", n_f, 8)
 
+    # ------------------------------------------------------------------ R8 the default serde is the identity
+    r8 = chk.rule("C15.R8", "the serde a client gets when none is configured (LegacyWrappingSerde without functions) stores the value as it is with flags 0 and hands the stored bytes back as they are - whatever the value (empty, falsy); a given function takes the place of its default only")
+    lw = prog.classes.get("LegacyWrappingSerde")
+    if lw is None:
+        r8.undecided("LegacyWrappingSerde:missing", "the default serde class was not found")
+    else:
+        init = lw.methods.get("__init__")
+        defaults = {}
+        if init is not None:
+            ip = ["self"] + [p_.name for p_ in init.pos_params() if p_.name != "self"]
+            for n in walk_no_nested(init.node):
+                if isinstance(n, ast.Assign) and len(n.targets) == 1 and is_self_attr(n.targets[0]) and n.targets[0].attr in ("serialize", "deserialize"):
+                    v = n.value
+                    # `given or self._default_x` / `self._default_x if given is None else given`
+                    names = [x.attr for x in ast.walk(v) if isinstance(x, ast.Attribute) and is_self_attr(x)]
+                    params = [x.id for x in ast.walk(v) if isinstance(x, ast.Name) and x.id in ip and x.id != "self"]
+                    want_param = ip[1] if n.targets[0].attr == "serialize" and len(ip) > 1 else (ip[2] if len(ip) > 2 else None)
+                    ok = len(names) == 1 and names[0] in lw.methods and set(params) == {want_param}
+                    if isinstance(v, ast.BoolOp) and isinstance(v.op, ast.Or) and ok:
+                        defaults[n.targets[0].attr] = names[0]
+                    elif isinstance(v, ast.IfExp) and ok:
+                        defaults[n.targets[0].attr] = names[0]
+                    else:
+                        r8.undecided("LegacyWrappingSerde.__init__:%s" % n.targets[0].attr, "how `%s` chooses between the given function and the default is not of a form the analysis reads" % node_src(n, 80))
+        for which in ("serialize", "deserialize"):
+            if which not in defaults:
+                if which in lw.methods:
+                    defaults[which] = which  # the class defines the method itself
+                elif not any(k.startswith("LegacyWrappingSerde.__init__:" + which) for k, m_ in chk.undecided):
+                    r8.fail("LegacyWrappingSerde.__init__:%s-not-set" % which, "LegacyWrappingSerde.__init__ does not provide `%s`" % which, fn=init)
+                    continue
+                else:
+                    continue
+            f = lw.methods[defaults[which]]
+            ps = ["self"] + [p_.name for p_ in f.pos_params() if p_.name != "self"]
+            class _Id(Domain):
+                async_enabled = False
+                def name_load(self_, name, state, node=None):
+                    return state.get(name) if state.has(name) else TOP
+                def truth(self_, v, state=None):
+                    return None  # nothing is known about the value: both outcomes of every test on it
+                def call(self_, node, fval, args, kwargs, state):
+                    return [("ok", TOP, state)]
+            env = {p_: Sym(p_) for p_ in ps}
+            outs = Interp(_Id(prog, f), f.node, prog).run(Env(env))
+            rets = {v for s_, v, t in outs.of("ret")}
+            if which == "serialize":
+                want = {TupleV((Sym(ps[2]), Const(0)))} if len(ps) >= 3 else None
+            else:
+                want = {Sym(ps[2])} if len(ps) >= 4 else None
+            if want is None:
+                r8.fail("LegacyWrappingSerde.%s:signature" % f.name, "%s does not take (key, value%s)" % (f.qualname, "" if which == "serialize" else ", flags"), fn=f)
+            elif rets == want and not outs.of("exc"):
+                r8.ok("default %s: %s" % (which, "(value, 0)" if which == "serialize" else "the stored bytes"))
+            elif any(has_top_(v) for v in rets):
+                r8.undecided("LegacyWrappingSerde.%s:identity" % f.name, "%s returns %s: not followed exactly" % (f.qualname, sorted(map(str, rets))))
+            else:
+                r8.fail("LegacyWrappingSerde.%s:identity" % f.name, "without a configured %s function the client %s: %s returns %s on some path instead of %s - a value that is empty or falsy, or of a particular type, does not come back as it was stored" % (which, "stores something else than the value it was given (or other flags than 0)" if which == "serialize" else "hands back something else than the stored bytes", f.qualname, sorted(map(str, rets)) + sorted({str(e.cls) for s_, e, t in outs.of("exc")}), "(value, 0)" if which == "serialize" else "the stored value", ), fn=f, node=f.node)
+
     # ------------------------------------------------------------------ R5 compression decision
     r5 = chk.rule("C15.R5", "compression decision over all orderings: COMPRESSED is set iff the compressor's output is what is stored; the stored form is never longer than the uncompressed one; decompress iff the bit is set")
     cs = prog.cls("CompressedSerde")
@@ -378,6 +453,10 @@ def run(chk):
             ok = len(calls) >= 1 and all(a[1] == (Decomp(Sym("stored")) if bit else Sym("stored")) and a[0] == Sym("key") for a in calls)
             r5.expect(ok, "deserialize: decompress iff the bit is set (%s), then delegate with the same key" % bit, "CompressedSerde.deserialize:decompress-%s" % ("missing" if bit else "spurious"), "with COMPRESSED %s the inner deserializer receives %s" % ("set" if bit else "clear", [a[1] for a in calls]), fn=dfn, witness=fmt_trace(t))
             okf = all(a[2] == Sym("flags") or a[2] == ("masked", COMPRESSED) for a in calls)
+            if not okf and all(a[2] == Sym("flags") or a[2] == ("masked", COMPRESSED) or a[2] is TOP for a in calls):
+                # the flags were computed in a way this domain has no transformer for: no verdict
+                r5.undecided("CompressedSerde.deserialize:flags-changed", "the flags handed to the inner deserializer are computed in a way the analysis does not follow (%s)" % [a[2] for a in calls])
+                continue
             r5.expect(okf, "deserialize passes the flags on", "CompressedSerde.deserialize:flags-changed", "the inner deserializer receives flags %s" % [a[2] for a in calls], fn=dfn)
     # what reaches the compressor is what the inner serde returned; its type is bytes by R4
     # ------------------------------------------------------------------ R6 pickle protocol wiring
@@ -488,6 +567,10 @@ class CompDomain(Domain):
                         return Const(self.bit if self.flag_set else 0)
                     if b.v & self.bit == 0:
                         return ("masked", self.bit)
+        if isinstance(node.op, (ast.BitXor, ast.Sub)):
+            # flags ^ BIT / flags - BIT where the bit is known to be set on this path: the flags without the bit
+            if l == Sym("flags") and isinstance(r, Const) and r.v == self.bit and self.flag_set:
+                return ("masked", self.bit)
         return super().binop(node, l, r, state)
 
     def compare(self, node, op, l, r, state):
